@@ -422,7 +422,19 @@ func c18Run(wl c18Workload) (quiescent bool, calls map[string]int, err error) {
 			return true, calls, stuckErr()
 		}
 	}
-	for _, op := range wl.Ops {
+	for i, op := range wl.Ops {
+		if op.C < 0 {
+			// a push through the REST patch endpoint: announced like any other push, the realtime clients have
+			// to pull it by themselves
+			js := fmt.Sprintf(`{"patched":%d,"b0":"p"}`, i)
+			if _, err, to := w.env.PatchDocument(&model.PatchMessage{Collection: w.col, Key: k.Name, Json: js}, l1Deadline); err != nil || to {
+				return false, calls, fmt.Errorf("REST patch during the realtime workload: err=%v timeout=%v", err, to)
+			}
+			if op.Sleep > 0 {
+				time.Sleep(time.Duration(op.Sleep) * time.Microsecond)
+			}
+			continue
+		}
 		r := cls[op.C%len(cls)]
 		res := sim.Exec(wl.Kind, r.dt, op.Call)
 		if res.Panic != nil {
@@ -472,7 +484,7 @@ func (w *l1World) storedLogByKey(key string) ([]storedOp, error) {
 
 func testC18Realtime(t *testing.T, kind sim.Kind) {
 	col := stats.New("C18", t.Name(),
-		"2-4 REAL clients in REALTIME mode (gRPC on loopback through a proxy, MQTT through the in-process broker with drawn forward delays); after each has subscribed by itself they only perform drawn local operations at drawn pauses - no Sync call; "+
+		"2-4 REAL clients in REALTIME mode (gRPC on loopback through a proxy, MQTT through the in-process broker with drawn forward delays); after each has subscribed by itself they only perform drawn local operations at drawn pauses - no Sync call (document workloads also contain REST patches of the document: pushes by the server's own client that the realtime clients have to pull by themselves); "+
 			"the harness waits for quiescence (no RPC in flight, no notification queued, no background work, nothing to push, calm for ~10 ms) and then requires every client = refmodel(stored log); an operation that stays unpushed while nothing at all is active for 3 s is a violation (the client library has no timers, nobody will push it); otherwise not reaching quiescence within 12 s makes the case inconclusive (skipped, counted), never a violation; "+
 			"non-trivial = >=2 clients issued operations; distinct = hash of the workload (the schedule is sampled, not controlled)")
 	col.Assume("schedule coverage is sampled; convergence is checked in its safety form quiescent => converged")
@@ -483,6 +495,7 @@ func testC18Realtime(t *testing.T, kind sim.Kind) {
 			IDSeed: rapid.Uint64Range(1, 1<<40).Draw(rt, "idseed")}
 		n := rapid.IntRange(1, 25).Draw(rt, "ops")
 		issuers := map[int]bool{}
+		patches := 0
 		for i := 0; i < n; i++ {
 			ci := rapid.IntRange(0, wl.Clients-1).Draw(rt, "c")
 			issuers[ci] = true
@@ -504,6 +517,10 @@ func testC18Realtime(t *testing.T, kind sim.Kind) {
 				}
 				call = sim.Call{M: "PutToObject", Key: fmt.Sprintf("b%d", rapid.IntRange(0, 2).Draw(rt, "putkey")), Vals: []sim.Val{v}}
 			}
+			if kind == sim.Document && rapid.IntRange(0, 7).Draw(rt, "rest_patch") == 0 {
+				ci = -1 // a REST patch of the document instead of a client operation
+				patches++
+			}
 			wl.Ops = append(wl.Ops, c18Op{C: ci, Call: call, Sleep: rapid.SampledFrom([]int{0, 0, 100, 1000, 3000}).Draw(rt, "sleep")})
 		}
 		c.j.Header = wl
@@ -519,7 +536,11 @@ func testC18Realtime(t *testing.T, kind sim.Kind) {
 			rt.Skip("no quiescence")
 		}
 		b, _ := json.Marshal(wl)
-		col.Case(len(issuers) >= 2, string(b), []string{"kind=" + string(kind), fmt.Sprintf("clients=%d", wl.Clients)}, func() interface{} { return wl })
+		rl := []string{"kind=" + string(kind), fmt.Sprintf("clients=%d", wl.Clients)}
+		if patches > 0 {
+			rl = append(rl, "rest-patch-during-the-workload")
+		}
+		col.Case(len(issuers) >= 2, string(b), rl, func() interface{} { return wl })
 	})
 }
 
